@@ -372,11 +372,11 @@ def build(S: Sources) -> Unit:
     hs = [
         KaniHarness("verif_c13_split::splitvec_insert", "bounded", bound="up to 5 inserts, every before/after pattern", covers="SplitVec::insert / split_index / all"),
         KaniHarness("verif_c13_filter::is_match_rule", "bounded", bound="up to 3 filters (any skip/positive pattern and insertion order), symbolic per-filter verdicts",
-                    covers="FilterSet::include / exclude / is_match", tier="thorough"),
+                    covers="FilterSet::include / exclude / is_match", tier="experimental"),
         KaniHarness("verif_c13_filter::exact_is_whole_string_equality", "bounded", bound="candidate strings of up to 2 ASCII bytes against the filter \"ab\"", covers="Filter::is_match (Exact)"),
     ] + [KaniHarness(f"verif_c13_tree::retain_structure_{c}", "bounded", bound=f"one tree: group m {{ a, b[1, 22] }}, verdicts {c} (all 8 combinations are enumerated, one harness each); format! stubbed",
-                     covers="EntryTree::retain (per-case decision, pruning of empty parents)", tier="thorough") for c in ("000", "001", "010", "011", "100", "101", "110", "111")] + [
-        KaniHarness("verif_c13_tree::retain_small_tree_paths", "bounded", bound="the same tree with the real format!", covers="EntryTree::retain (path text parent::child[::arg])", tier="thorough"),
+                     covers="EntryTree::retain (per-case decision, pruning of empty parents)", tier="experimental") for c in ("000", "001", "010", "011", "100", "101", "110", "111")] + [
+        KaniHarness("verif_c13_tree::retain_small_tree_paths", "bounded", bound="the same tree with the real format!", covers="EntryTree::retain (path text parent::child[::arg])", tier="experimental"),
     ]
     errs = []
     ff = guarded(lambda: filter_file(S), errs, []) + guarded(lambda: retain_file(S), errs, [])
